@@ -15,8 +15,11 @@ Judge(e) ==
   LET c == e.case
       mustDeny == Denied(c)
       byNs == mustDeny /\ ~((c.m.service = "workflow" /\ c.m.method \in AlwaysDenied)
-                            \/ (c.m.service = "admin" /\ HasMethodPolicy(c) /\ c.m.method \notin AllowedAdmin))
-      aclBad == \/ (mustDeny /\ (e.status # "PermissionDenied" \/ e.calls # 0))
+                            \/ (c.m.service = "admin" /\ HasMethodPolicy(c) /\ c.m.method \notin AllowedAdminOf(c.policy)))
+      \* on the mux transport the caller talks to the PEER proxy, whose pass-through forwarder ends a stream with nil whatever its
+      \* upstream answered (C06): a refused stream is then visible only as "never reached the serving cluster"
+      statusSeen == ~(c.transport = "mux" /\ c.m.stream)
+      aclBad == \/ (mustDeny /\ ((statusSeen /\ e.status # "PermissionDenied") \/ e.calls # 0))
                 \/ (~mustDeny /\ (e.status # "OK" \/ e.calls # 1))
       nameBad == ~mustDeny /\ e.status = "OK" /\ c.m.hasns /\ ~c.m.stream
                  /\ (e.seen # SeenName(c) \/ (e.echoed /\ e.resp # RespName(c)))
@@ -26,10 +29,12 @@ Judge(e) ==
 JudgeMap(e) == FlagAll(IF e.rejected = OneToOne(e.list) THEN {<<l, "badmap">>} ELSE {})
 \* search-attribute direction on the assembled servers
 JudgeSa(e) == FlagAll(IF e.ran /\ e.keys = SaWant(e.case) THEN {} ELSE {<<l, "sadir">>})
+JudgeList(e) == FlagAll(IF e.ran /\ e.names = ListWant(e.case) THEN {} ELSE {<<l, "list">>})
 PNext == /\ l <= Len(Trace) /\ l' = l + 1
          /\ LET e == Trace[l] IN IF e.ev = "Case" /\ e.ran THEN Judge(e)
                                  ELSE IF e.ev = "BadMap" THEN JudgeMap(e)
-                                 ELSE IF e.ev = "SaCase" THEN JudgeSa(e) ELSE TRUE
+                                 ELSE IF e.ev = "SaCase" THEN JudgeSa(e)
+                                 ELSE IF e.ev = "ListCase" THEN JudgeList(e) ELSE TRUE
 PSpec == l = 1 /\ [][PNext]_l
 Report == PrintT(<<"OBS_VIOLATIONS", TLCGet(1)>>) /\ PrintT(<<"OBS_TRACE_LEN", Len(Trace)>>)
 =============================================================================
